@@ -160,6 +160,7 @@ func cmdCheck(args []string) int {
 		return 2
 	}
 	known := loadKnownFindings(filepath.Join(*verif, "known_findings.txt"))
+	replayKnown, replayProp = known, prop
 
 	// functions serving this property
 	var funcs []*FuncContract
